@@ -3,3 +3,4 @@ import QP.Props.C08
 import QP.Props.C13
 import QP.Props.C14
 import QP.Props.C19
+import QP.Props.C20
